@@ -574,6 +574,8 @@ func H_C18_kinds() {
 	vals := []scalar{
 		{"0", 0, 0.0}, {"1", 1, 1.0}, {"2", 2, 2.0}, {"-1", -1, -1.0}, {"255", 255, 255.0}, {"256", 256, 256.0},
 		{"1000000", 1000000, 1000000.0}, {"123456789012", 123456789012, 123456789012.0},
+		{"9223372036854775808", uint64(1 << 63), 9223372036854775808.0}, {"10000000000000000000", uint64(10000000000000000000), 1e19},
+		{"-9223372036854775808", -1 << 63, -9223372036854775808.0},
 		{"1.5", 1.5, 1.5}, {"true", true, true}, {"\"1\"", "1", "1"}, {"\"true\"", "true", "true"}, {"\"x\"", "x", "x"}, {"null", nil, nil},
 	}
 	e := vals[verif.Choice("value", len(vals))]
